@@ -416,6 +416,7 @@ func sameSeq(a, b []interface{}) bool { return false }
 func sameStr(a, b string) bool { return false }
 func sameHdr(a, b interface{}) bool { return false }
 func distinctBacking(a, b interface{}) bool { return false }
+func distinctObj(a, b interface{}) bool { return false }
 func mapValuesNonNil(m interface{}) bool { return false }
 func isFresh(x interface{}) bool { return false }
 func mapAt(m interface{}, key interface{}) interface{} { return nil }
@@ -452,6 +453,8 @@ func sameSlice(a, b []byte) bool    { return false }
 func subslice(a, b []byte) bool     { return false }
 func sliceOff(a, b []byte) int      { return 0 }
 func iteInt(c bool, a, b int) int   { return 0 }
+func iteInt64(c bool, a, b int64) int64 { return 0 }
+func iteByte(c bool, a, b byte) byte { return 0 }
 func iteStr(c bool, a, b string) string { return "" }
 `
 
@@ -472,9 +475,11 @@ var replayHelpers = func() string {
 	rep("func __exists(lo, hi int, f func(int) bool) bool", "{ for i := lo; i < hi; i++ { if f(i) { return true } }; return false }")
 	rep("func out(w interface{}) []byte", "{ if g, ok := w.(interface{ govcBytes() []byte }); ok { return g.govcBytes() }; panic(govcGhost{}) }")
 	rep("func iteInt(c bool, a, b int) int", "{ if c { return a }; return b }")
+	rep("func iteInt64(c bool, a, b int64) int64", "{ if c { return a }; return b }")
+	rep("func iteByte(c bool, a, b byte) byte", "{ if c { return a }; return b }")
 	rep("func iteStr(c bool, a, b string) string", "{ if c { return a }; return b }")
 	for _, g := range []string{"func seq(x interface{}) []interface{}", "func misc(x interface{}) int", "func sameSeq(a, b []interface{}) bool",
-		"func sameStr(a, b string) bool", "func sameHdr(a, b interface{}) bool", "func distinctBacking(a, b interface{}) bool",
+		"func sameStr(a, b string) bool", "func sameHdr(a, b interface{}) bool", "func distinctBacking(a, b interface{}) bool", "func distinctObj(a, b interface{}) bool",
 		"func mapValuesNonNil(m interface{}) bool", "func isFresh(x interface{}) bool", "func mapAt(m interface{}, key interface{}) interface{}",
 		"func mapAll(m interface{}) interface{}", "func mapHas(m interface{}, key interface{}) bool", "func disk(path string) int",
 		"func diskOfFile(f interface{}) int", "func pathKey(path string) int", "func ghostInt(x interface{}, name string) int",
